@@ -1,7 +1,7 @@
 (* C02 -- debounce: one action per window, never before the window has elapsed.
    Proofs: Worker/ThrottleProofs.v.  Times are those of an ideal clock; the real clock reads are never earlier. *)
 From Coq Require Import List NArith Bool.
-From WX Require Import Worker.Throttle Worker.ThrottleProofs Gen.EventNames_gen.
+From WX Require Import Worker.Throttle Worker.ThrottleProofs Worker.ThrottleRt Worker.ThrottleRtProofs Gen.EventNames_gen.
 Import ListNotations.
 Open Scope N_scope.
 
@@ -10,6 +10,24 @@ Theorem C02_lower_bound : forall l th,
   forall b, In b (collect l th) -> b_urgent b = false -> b_first b + th <= b_deliver b.
 Proof. exact lower_bound_const. Qed.
 Print Assumptions C02_lower_bound.
+
+(* ---- the throttle changed at run time (Worker/ThrottleRt.v: inputs are events and configuration changes; a loop turn reads
+   the value configured then, the time-out in progress was computed from the value read at the previous turn) *)
+Theorem C02_runtime_machine_is_the_same_when_constant : forall th (l : list (N * ev)),
+  proj (rt_run th (map (fun x => IEv (fst x) (snd x)) l)) = run_events (map (fun x => (fst x, th, snd x)) l) /\
+  rt_collect th (map (fun x => IEv (fst x) (snd x)) l) = collect (map (fun x => (fst x, th, snd x)) l) th.
+Proof. exact rt_const. Qed.
+Print Assumptions C02_runtime_machine_is_the_same_when_constant.
+
+Theorem C02_lower_bound_runtime : forall init l,
+  rmono 0 l -> forall b, In b (rt_collect init l) -> b_urgent b = false ->
+  exists v, In v (cfg_values init l) /\ b_first b + v <= b_deliver b.
+Proof. exact rt_lower_bound. Qed.
+Print Assumptions C02_lower_bound_runtime.
+
+Theorem C02_runtime_conservation : forall init l, concat (map b_ids (rt_collect init l)) = rinputs_ok l.
+Proof. exact rt_conservation_all. Qed.
+Print Assumptions C02_runtime_conservation.
 
 Theorem C02_urgent_flush : forall s R th e,
   e_urgent e = true ->
